@@ -163,8 +163,13 @@ def unresolved_new_names(ctx, things):
 # iteration / call plumbing of the standard library that the interpreter does not model (where it does — islice, reduce
 # over a concrete sequence, repeat, chain — no such atom is left in the term).  These do not compute values of their
 # own; a term that still contains one is a re-expression the comparison cannot see through.
-PLUMBING = ("next", "iter", "map", "filter", "functools.reduce", "reduce", "functools.partial", "partial")
-PLUMBING_PREFIXES = ("itertools.", "operator.", "collections.")
+PLUMBING = (
+    "next", "iter", "map", "filter", "functools.reduce", "reduce", "functools.partial", "partial",
+    "itertools.count", "itertools.chain", "itertools.chain.from_iterable", "itertools.repeat", "itertools.islice", "itertools.starmap",
+    "itertools.zip_longest", "itertools.tee", "itertools.cycle",
+)
+# (not: Counter, groupby, accumulate, takewhile ... — those compute or select values; a term that differs through them differs)
+PLUMBING_PREFIXES = ("operator.",)
 
 
 def _plumbing_names(things):
